@@ -59,6 +59,7 @@ def base_models():
     sp["teams"][0]["workers"][1]["share_logs_with"] = "W0"  # a clone made with copy.copy shares its template's log lists
     out.append(sp)
     out.append(F.shared_child_spec())
+    out.append(F.team_hierarchy_spec())  # three nested teams / workplaces, one workplace without any facility
     # automatic task with a half-integer rate (remaining work crosses zero between steps) next to worked tasks
     sp = F.with_teams({"tasks": [{"name": "T0", "work": 2.5, "auto": True}, {"name": "T1", "work": 1.5}, {"name": "T2", "work": 1.0}], "links": [[0, 2, "FS"], [1, 2, "FS"]]}, "MIX")
     out.append(sp)
@@ -263,7 +264,7 @@ def run(tier, seed):
     col = engines.fanout(items, work, seed=seed, chunks_per_proc=4)
     meta = {
         "level": "model_checking",
-        "rule": "breadth-first search over operation histories up to depth %d on real projects (11 base models: two teams + workplace, fractional automatic task, FS chain, parallel with due times, automatic task, individually absent workers / facilities, facility+conveyor, "
+        "rule": "breadth-first search over operation histories up to depth %d on real projects (base models: two teams + workplace, nested teams/workplaces with a facility-less workplace, fractional automatic task, FS chain, parallel with due times, automatic task, individually absent workers / facilities, facility+conveyor, "
         "shared component, nested product) over the alphabet simulate(full | max_time 0,1,2 | resume with each flag pair, absolute and relative max_time) x absence {[],[1]}, "
         "backward_simulate x due-time flag x reverse flag x absence, initialize(), reverse_log_information(); every history is replayed on fresh objects, states are de-duplicated on "
         "the complete dump; after every operation all per-step logs must have one common length equal to project.time, and at every 'recorded' phase of every inner simulate the "
